@@ -87,7 +87,7 @@ class Planner:
         rng = self.rng("edit", i)
         bp = rng.choice(self.dep_heavy) if rng.chance(4, 5) else rng.choice(self.valid)
         e = rng.weighted([(9, "move_a_b"), (3, "move_b_c"), (3, "dep_sig"), (2, "dep_lifecycle"), (2, "dep_body"),
-                          (2, "dep_feature"), (2, "app_sig"), (2, "app_path"), (4, "dep_include"), (3, "app_version")])
+                          (2, "dep_feature"), (2, "app_sig"), (2, "app_path"), (4, "dep_include"), (3, "app_version"), (5, "app_dep_feature")])
         steps = []
         if rng.chance(1, 2):
             steps.append(_ex(rng, bp, diag=_diag_gen(rng)))
@@ -120,7 +120,8 @@ class Planner:
         other = rng.choice(self.valid + self.invalid[:4])
         init = {}
         if rng.chance(1, 2):
-            init["p1"] = [rng.choice(["move_a_b", "move_b_c", "dep_sig", "dep_body", "dep_include"])]
+            init["p1"] = [rng.choice(["move_a_b", "move_b_c", "dep_sig", "dep_body", "dep_include", "app_dep_feature",
+                                      "app_dep_feature"])]
         if rng.chance(1, 4):
             init["p0"] = [rng.choice(["move_a_b", "dep_sig"])]
         steps = [_ex(rng, other, proj="p1", diag=_diag_gen(rng))]
@@ -273,11 +274,14 @@ class Planner:
                  _ex(rng, bp, mode="check"), _ex(rng, bp, diag=_diag_gen(rng)), _ex(rng, bp, mode="check")]
         self.add("shrink_deps", rng, steps)
 
-    def moved_blueprint(self, i):
+    def moved_blueprint(self, i, bp=None):
         """a blueprint serialised on another checkout: its source locations name files that are not
         there, so every diagnostic that wants a snippet meets an I/O error"""
         rng = self.rng("moved", i)
-        bp = rng.choice(self.valid + self.invalid)
+        # accepted blueprints (warnings only: the unreadable file is the ONLY reason to fail) and
+        # rejected ones take turns
+        if bp is None:
+            bp = rng.choice(self.valid) if i % 2 == 0 else rng.choice(self.invalid)
         steps = []
         if rng.chance(1, 2):
             steps.append(_seed_outdir(rng, bp, self.valid))
@@ -371,8 +375,12 @@ class Planner:
                 self.outpath(100 + i)
             for i in range(2 if q else 16):
                 self.broken_sdk(i)
-            for i in range(3 if q else 30):
-                self.moved_blueprint(i)
+            # which diagnostics want a snippet depends on how the components were registered: every
+            # accepted blueprint once, plus a few rejected ones
+            for i, bp in enumerate(self.valid):
+                self.moved_blueprint(500 + i, bp)
+            for i in range(2 if q else 30):
+                self.moved_blueprint(2 * i + 1)
             for i in range(2 if q else 16):
                 self.bad_diag(i)
             for i in range(1 if q else 6):
